@@ -206,6 +206,23 @@ pub fn run(run: &Run) {
                 run.violation(&format!("[{}] {}", f.name, msg), case_json(&f, s, None), &features(&f, Some(v), s));
             }
         });
+        // (a') the same values as written by the reference formatter from the recipe (one blank between
+        // tokens), wherever that text differs from the library's: the library's text goes through the
+        // constructors, so a constructor that rewrites its arguments never prints the shape it rewrites
+        let own: Vec<(String, &V)> = strings
+            .par_iter()
+            .filter_map(|(s, v)| {
+                let mine = emit::join(&emit::value(&f, v), " ");
+                if emit::strip_ws(&mine) != emit::strip_ws(s) { Some((mine, *v)) } else { None }
+            })
+            .collect();
+        run.count(&format!("recipe_strings_differing_from_the_formatter_{}", f.name), own.len() as u64);
+        own.par_iter().for_each(|(s, v)| {
+            run.eval(1);
+            if let Err(msg) = crate::watch::case(s, || case(&f, s, None)) {
+                run.violation(&format!("[{}] {}", f.name, msg), case_json(&f, s, None), &features(&f, Some(v), s));
+            }
+        });
         // (b) derived copulas
         let mut ops_: Vec<R> = u::all_atoms(&f);
         ops_.extend(u::reps(&f).into_iter().filter(|r| !r.tag.is_atom()));
